@@ -39,7 +39,9 @@ func (w *world) runKS(m *message, target string, shareAtMax bool, ksPool *pool) 
 
 	var proto multiparty.KeySwitchProtocol
 	var err error
-	if !c.Try(sig+".New", func() { proto, err = multiparty.NewKeySwitchProtocol(params, w.fl) }) {
+	if !c.Try(sig+".New", func() {
+		proto, err = cached(w, "ks", func() (multiparty.KeySwitchProtocol, error) { return multiparty.NewKeySwitchProtocol(params, w.fl) })
+	}) {
 		return
 	}
 	if err != nil {
@@ -54,11 +56,9 @@ func (w *world) runKS(m *message, target string, shareAtMax bool, ksPool *pool) 
 	shares := make([]multiparty.KeySwitchShare, n)
 	polys := make([]ring.Poly, n)
 	for i := 0; i < n; i++ {
-		p := proto
-		if i > 0 && i%2 == 1 {
-			p = proto.ShallowCopy()
-		}
+		p := inst(w, "ks", i, proto, multiparty.KeySwitchProtocol.ShallowCopy)
 		shares[i] = p.AllocateShare(shareLevel)
+		w.dirtyPoly(params, shares[i].Value)
 		in := ct
 		if i%3 == 2 {
 			in = withoutC0(ct)
@@ -83,6 +83,7 @@ func (w *world) runKS(m *message, target string, shareAtMax bool, ksPool *pool) 
 			return
 		}
 		ksPool.add(e)
+		w.ppool("ks", i).add(e)
 		polys[i] = shares[i].Value
 	}
 	c.Check(ct.Equal(ct0), sig+".GenShare|input-ciphertext-modified", nil)
@@ -123,6 +124,7 @@ func (w *world) runKS(m *message, target string, shareAtMax bool, ksPool *pool) 
 			dst = src
 		} else {
 			dst = rlwe.NewCiphertext(params, 1, eng.Pick(w.rnd, level, params.MaxLevel(), 0))
+			w.dirtyCt(params, dst)
 		}
 		if !c.Try(sig+".KeySwitch", func() { proto.KeySwitch(src, agg, dst) }) {
 			continue
@@ -181,7 +183,11 @@ func (w *world) runPCKS(m *message, sharedTarget bool, shareAtMax bool, pkPool *
 
 	var proto multiparty.PublicKeySwitchProtocol
 	var err error
-	if !c.Try(sig+".New", func() { proto, err = multiparty.NewPublicKeySwitchProtocol(params, w.fl) }) {
+	if !c.Try(sig+".New", func() {
+		proto, err = cached(w, "pcks", func() (multiparty.PublicKeySwitchProtocol, error) {
+			return multiparty.NewPublicKeySwitchProtocol(params, w.fl)
+		})
+	}) {
 		return
 	}
 	if err != nil {
@@ -197,11 +203,12 @@ func (w *world) runPCKS(m *message, sharedTarget bool, shareAtMax bool, pkPool *
 	h0 := make([]ring.Poly, n)
 	h1 := make([]ring.Poly, n)
 	for i := 0; i < n; i++ {
-		p := proto
-		if i > 0 && i%2 == 1 {
-			p = proto.ShallowCopy()
-		}
+		p := inst(w, "pcks", i, proto, multiparty.PublicKeySwitchProtocol.ShallowCopy)
 		shares[i] = p.AllocateShare(shareLevel)
+		if w.x.Dirty {
+			w.dirtyPoly(params, shares[i].Value[0])
+			w.dirtyPoly(params, shares[i].Value[1])
+		}
 		in := ct
 		if i%3 == 2 {
 			in = withoutC0(ct)
@@ -221,6 +228,7 @@ func (w *world) runPCKS(m *message, sharedTarget bool, shareAtMax bool, pkPool *
 			return
 		}
 		pkPool.add(e)
+		w.ppool("pcks", i).add(e)
 		h0[i], h1[i] = sh.Value[0], sh.Value[1]
 	}
 	c.Check(ct.Equal(ct0), sig+".GenShare|input-ciphertext-modified", nil)
@@ -259,6 +267,7 @@ func (w *world) runPCKS(m *message, sharedTarget bool, shareAtMax bool, pkPool *
 			dst = src
 		} else {
 			dst = rlwe.NewCiphertext(params, 1, eng.Pick(w.rnd, level, params.MaxLevel(), 0))
+			w.dirtyCt(params, dst)
 		}
 		if !c.Try(sig+".KeySwitch", func() { proto.KeySwitch(src, agg, dst) }) {
 			continue
